@@ -133,9 +133,9 @@ def expected_part(fmt, mts):
     return out
 
 
-def check_cli(fmt, size, spec, use_filter):
+def check_cli(fmt, size, spec, use_filter, src_fmt='export'):
     mts = bank(size)
-    case = {'cli': True, 'fmt': fmt, 'size': size, 'spec': spec, 'filter': use_filter}
+    case = {'cli': True, 'fmt': fmt, 'size': size, 'spec': spec, 'filter': use_filter, 'src_fmt': src_fmt}
     out = []
 
     def bad(kind, detail):
@@ -144,13 +144,14 @@ def check_cli(fmt, size, spec, use_filter):
                               % (detail, size, spec, fmt, ' with filter_by_length gt 2' if use_filter else ''),
                     'what': '--split: ' + kind})
     d = scratch()
-    src = os.path.join(d, 'c17.export')
+    src = os.path.join(d, 'c17.' + src_fmt)
     with open(src, 'w', encoding='utf-8') as f:
-        f.write(codecs.encode_export(mts))
+        f.write({'export': codecs.encode_export, 'brackets': codecs.encode_brackets,
+                 'tigerxml': codecs.encode_tigerxml, 'discobrackets': codecs.encode_discobrackets}[src_fmt](mts))
     dest = os.path.join(d, 'c17out')
     for old in glob.glob(dest + '*'):
         os.unlink(old)
-    argv = ['transform', src, dest, '--src-format', 'export', '--dest-format', fmt, '--split', spec]
+    argv = ['transform', src, dest, '--src-format', src_fmt, '--dest-format', fmt, '--split', spec]
     kept = mts
     if use_filter:
         argv += ['--trans', 'filter_by_length', '--params', 'filteroperator:gt', 'filtervalue:2']
@@ -211,7 +212,7 @@ def cli_specs(size):
 def check_case(case):
     with quiet():
         if case.get('cli'):
-            return check_cli(case['fmt'], case['size'], case['spec'], case['filter'])[0]
+            return check_cli(case['fmt'], case['size'], case['spec'], case['filter'], case.get('src_fmt', 'export'))[0]
         return check_spec(case['spec'], case['size'])[0]
 
 
@@ -252,10 +253,12 @@ def run_chunk(chunk):
             res.sample({'malformed_specs': MALFORMED})
         else:
             spec = None
-            for spec in cli_specs(chunk['size']):
+            srcs = ['export', 'brackets', 'tigerxml', 'discobrackets']
+            for si, spec in enumerate(cli_specs(chunk['size'])):
                 for use_filter in (False, True):
-                    vs, nt = check_cli(chunk['fmt'], chunk['size'], spec, use_filter)
-                    take(vs, nt, (chunk['fmt'], chunk['size'], spec, use_filter))
+                    src_fmt = srcs[(si + use_filter) % len(srcs)] if chunk['size'] else 'export'
+                    vs, nt = check_cli(chunk['fmt'], chunk['size'], spec, use_filter, src_fmt)
+                    take(vs, nt, (chunk['fmt'], chunk['size'], spec, use_filter, src_fmt))
             res.sample({'cli': 'treetools transform SRC DEST --dest-format %s --split %s' % (chunk['fmt'], spec),
                         'treebank_size': chunk['size']})
     return res
